@@ -57,7 +57,8 @@ TFix ==
          mf == ToSet(e.modFiles)
          plain == ~e.show /\ ~e.save
      IN /\ fails' = fails
-             \cup When(e.raised = "", IF plain THEN "C14_FixRaised" ELSE "C17_PreviewRaised")
+             \* (e.fault: the report's name is taken by a directory - the OS's error may come through; a RETURNED answer is judged as ever)
+             \cup When(e.raised = "" \/ (e.fault /\ known /\ objs[e.obj].valid), IF plain THEN "C14_FixRaised" ELSE "C17_PreviewRaised")
              \cup When(~known \/ e.raised # "" \/ FixOnInvalid(e.obj, res), "C14_InvalidFixNoneFalse")
              \* (on an invalid pair the answer IS (None, False) - with any arguments, so it is an answer, not an exception)
              \cup When(~known \/ objs[e.obj].valid \/ e.raised = "", "C14_InvalidFixNoneFalse")
@@ -85,7 +86,7 @@ TBulk ==
          mf == ToSet(e.modFiles)
          ok == e.raised = ""
      IN /\ fails' = fails
-             \cup When(ok, "C14_BulkRaised")
+             \cup When(ok \/ e.fault, "C14_BulkRaised")
              \cup When(~ok \/ BulkLength(e.entries, e.results), "C12_OneResultPerEntry")
              \cup When(~ok \/ BulkIsMap(e.entries, e.results, e.mode, e.vr), "C12_BulkIsMapOfSingle")
              \cup When(~ok \/ BulkInvalid(e.entries, e.results), "C12_InvalidEntryUnchanged")
@@ -94,7 +95,7 @@ TBulk ==
              \cup When(Quiet(FALSE, e.save, e.dout, nf, mf), "C17_Quiet")
              \cup When(OnlyReport(e.save, nf, mf, BulkReport), "C17_OnlyReport")
              \* C17: with save_report the call returns what the plain call returns (so it must return at all, and be the same map)
-             \cup When(~e.save \/ ok, "C17_ReportRaised")
+             \cup When(~e.save \/ ok \/ e.fault, "C17_ReportRaised")
              \cup When(~e.save \/ ~ok \/ (BulkLength(e.entries, e.results) /\ BulkIsMap(e.entries, e.results, e.mode, e.vr)), "C17_SameResult")
         /\ incon' = incon \cup (IF ok /\ \E j \in 1..Len(e.results) : j <= Len(e.entries) /\ e.entries[j].valid /\ e.results[j].css # <<>>
                                           /\ Level(e.results[j].css, e.results[j].bg, e.results[j].large) = "CLOSE"
